@@ -45,6 +45,8 @@ def main():
         keep = list(sys.path)
         try:
             import miasmx.arch.ia32_arch
+            import miasmx.arch.ia32_att
+            import miasmx.core.parse_ad      # imported lazily by the first asm() call otherwise
         finally:
             sys.path[:] = keep
         want = os.path.realpath(os.environ.get("VERIF_REPO", "/repo"))
